@@ -54,6 +54,7 @@ THEOREMS = [
     "Nix.C18.C18_shape_ops",
     "Nix.C18.C18_shape_create",
     "Nix.C18.C18_shape_entry",
+    "Nix.C18.C18_shape_link",
     "Nix.C18.C18_texts_verbatim",
     "Nix.C18.C18_content_no_name_taken",
     "Nix.C18.C18_fails_only_on_taken_name",
@@ -92,8 +93,10 @@ MANIFEST = {
                   "step and the only one that changes the version, so every interrupted state - and every failed "
                   "upgrade - is still old; re-running after any prefix of the steps, and after any history of "
                   "interruptions, gives the same file and outcome as an uninterrupted run up to the invocation that "
-                  "made fresh ids/timestamps; the result has nothing left to collect, a second upgrade and a stale task "
-                  "list are the identity, the file opens for writing; for every file (no hypothesis on name clashes), "
+                  "made fresh ids/timestamps; at every interruption point the file reads as before and is still old "
+                  "(C18_interrupted_reads_same); the result has nothing left to collect, a second upgrade and a stale task "
+                  "list are the identity, a task list collected before an interrupted run and processed on what it left "
+                  "completes the upgrade with the same result (C18_stale_list_resumes), the file opens for writing; for every file (no hypothesis on name clashes), "
                   "every step list and failing steps included, every property keeps dtype, values, unit and "
                   "definition and no per-value extra is lost (a compound property is afterwards untouched or "
                   "converted with every extra retrievable by a reader who knows the original names; "
@@ -108,7 +111,7 @@ MANIFEST = {
                   "create_property itself - parameters handed to create_dataset unchanged, attributes written, definition / unit "
                   "only when non-empty -, the arguments of the main call each read once from the old dataset and passed on "
                   "unmodified, has_valid_file_id with uuid.UUID's acceptance modelled completely, file_upgrade's "
-                  "collect-then-process, RangeDimension.is_alias and the ticks/unit/label getters) is regenerated from nixio/cmd/upgrade.py "
+                  "collect-then-process, the attributes of the new link group, RangeDimension.is_alias and the ticks/unit/label getters) is regenerated from nixio/cmd/upgrade.py "
                   "and nixio/dimensions.py on every run and proved equal to the model (C18_shape_*); the rest of the "
                   "model is tied to the code by differential runs on h5py-crafted old files with every interruption "
                   "point.",
@@ -123,7 +126,8 @@ MANIFEST = {
                   "order, durability of a closed file) is modelled and exercised by the correspondence, not proved.",
     "technique": "Lean 4 proof (induction over step lists, erase-homomorphism, run invariants, sorted-permutation "
                  "uniqueness, interpreters for the ast-extracted source shape) with differential correspondence on "
-                 "real HDF5 files, an interruption sweep and a property oracle comparing every per-value extra exactly",
+                 "real HDF5 files, an interruption sweep and a property oracle comparing every per-value extra and every "
+                 "text (units, definitions, types, labels, names as other writers store them) exactly",
 }
 
 
